@@ -148,6 +148,17 @@ func orderOfAtoms(atoms []condAtom) string {
 	}
 	other := map[string]string{"LittleEndian": "BigEndian", "BigEndian": "LittleEndian"}
 	for _, a := range atoms {
+		if a.call != nil {
+			// a predicate such as r.littleEndian(): its single return is the comparison with the byte-order value
+			if g := a.call.Call.StaticCallee(); g != nil && len(g.Blocks) == 1 {
+				if ret, ok := lastInstr(g.Blocks[0]).(*ssa.Return); ok && len(ret.Results) == 1 {
+					if o := orderOfAtoms(condAtoms(ret.Results[0], a.truth, 0)); o != "" {
+						return o
+					}
+				}
+			}
+			continue
+		}
 		e := endian(a.x)
 		if e == "" {
 			e = endian(a.y)
